@@ -249,8 +249,15 @@ def _check_views(obj, led, viol):
                          "reading %r at resolution %s raised %s" % (flag, res, e), None))
             return
         n += 1
+        try:
+            arr = _as_array(got, shape)
+        except (TypeError, ValueError):
+            viol.append(("conservation/%s-view/at-%s" % (kind, res),
+                         "view %r at resolution %s is not an array but a %s"
+                         % (flag, res, type(got).__name__), None))
+            return
         held.append((kind, flag, got, exp))
-        got = _as_array(got, shape)
+        got = arr
         if got.shape != shape or not numpy.array_equal(got, exp):
             viol.append(("conservation/%s-view/at-%s" % (kind, res),
                          "view %r at resolution %s = %s, ledger says %s"
